@@ -20,6 +20,6 @@ CONSTANTS
   FrameOK <- FrameAny
   KeepHist = FALSE
 CONSTRAINT Progress
-INVARIANTS InOrder FramingInv BufferInv PongsOk WritesOk DiscOk
+INVARIANTS InOrder FramingInv BufferInv PongsOk WritesOk OutContig DiscOk
 POSTCONDITION Accepted
 CHECK_DEADLOCK FALSE
